@@ -522,6 +522,12 @@ def generate():
     from .translate_xr import generate_xr
 
     status.update(generate_xr(gen))
+    from .translate_trk import generate_trk
+
+    status.update(generate_trk(gen))
+    from .translate_ptm import generate_ptm
+
+    status.update(generate_ptm(gen))
     return status
 
 
